@@ -1475,6 +1475,19 @@ class C20(Prop):
                     for ek in ('rich', 'empty'):
                         lines.append(case_line(f's{n}', main, inp, defs=[d], ek=ek))
                         n += 1
+        # counts that come from the INPUT (configure) may be absurd: a repetition configured with `exactly` / `at_least` of 2^64-1,
+        # 2^63, 2^32 items on a short input fails like any other repetition that finds too few items — it must not size
+        # anything by the announced count
+        A_ = ('just', [gen.A])
+        for cnt in (2 ** 64 - 1, 2 ** 63, 2 ** 32, 10 ** 12):
+            for cfn in ('exactlyctx', 'atleastctx'):
+                it = ('cfgrep', cfn, ('rep', A_, 0, None))
+                for cons in (('collect', 'vec', it), ('collect', 'string', it), ('foldr', 'fpair', it, ('empty',)), ('collect', 'count', it),
+                             ('foldl', 'fpair', ('empty',), it)):
+                    for mode in ('parse', 'check'):
+                        lines.append(case_line(f's{n}', ('withctx', ('vnat', cnt), ('then', cons, ('toslice', ('iterp', ('rep', ('any',), 0, None))))),
+                                               inputs_all(3, [gen.A, gen.B]), mode=mode))
+                        n += 1
         return lines
 
     def compare(self, line, k, impl_M, model_M, spec_S):
